@@ -286,12 +286,22 @@ mod compat {
     use codespan_reporting::files::SimpleFile;
 
     pub fn position_to_offset(file: &SimpleFile<&str, &str>, pos: &lsp_types::Position) -> usize {
-        codespan_lsp::position_to_byte_index(
-            file,
-            (),
-            &lsp_types_old::Position::new(pos.line, pos.character),
-        )
-        .unwrap()
+        use codespan_reporting::files::Files;
+        // The protocol allows a character offset behind the end of the line
+        // (it defaults back to the line length); a line behind the last line
+        // or an offset inside a surrogate pair is clamped as well.
+        let source: &str = file.source();
+        let Ok(line) = file.line_range((), pos.line as usize) else {
+            return source.len();
+        };
+        let mut units = 0;
+        for (i, c) in source[line.clone()].char_indices() {
+            if units >= pos.character || c == '\n' || c == '\r' {
+                return line.start + i;
+            }
+            units += c.len_utf16() as u32;
+        }
+        line.end
     }
 
     pub fn span_to_range(file: &SimpleFile<&str, &str>, span: &Span) -> lsp_types::Range {
